@@ -38,7 +38,9 @@ import (
 	"strings"
 
 	"github.com/grafana/cog/internal/ast"
+	jsjenny "github.com/grafana/cog/internal/jennies/jsonschema"
 	cogjs "github.com/grafana/cog/internal/jsonschema"
+	"github.com/grafana/cog/internal/languages"
 	jsv "github.com/santhosh-tekuri/jsonschema/v5"
 )
 
@@ -383,6 +385,42 @@ func jsRealGenerateAST(text, pkg string) (sch *ast.Schema, err error) {
 	return cogjs.GenerateAST(strings.NewReader(text), cogjs.Config{Package: pkg})
 }
 
+// c01FrontRealEmitted: the JSON Schema the REAL jsonschema jenny writes for the real front-end IR (after the jsonschema
+// language's own compiler passes), compiled by the reference validator at `#/definitions/<root>`: the back half of the
+// source-schema → IR → emitted-schema round trip (tie of C12_jsonschema_source_validates_emitted_partial).
+func c01FrontRealEmitted(real *ast.Schema) (rv *refValidator, text string, err error) {
+	defer func() {
+		if rec := recover(); rec != nil {
+			err = fmt.Errorf("PANIC: %v", rec)
+		}
+	}()
+	cp := real.DeepCopy()
+	processed, err := jsjenny.New(jsjenny.Config{}).CompilerPasses().Process(ast.Schemas{&cp})
+	if err != nil {
+		return nil, "", err
+	}
+	var sch *ast.Schema
+	for _, s := range processed {
+		if s.Package == real.Package {
+			sch = s
+		}
+	}
+	if sch == nil {
+		return nil, "", fmt.Errorf("package lost by the compiler passes")
+	}
+	if real.EntryPoint == "" {
+		return nil, "", fmt.Errorf("no entry point")
+	}
+	jenny := jsjenny.Schema{ReferenceFormatter: func(ref ast.RefType) string { return "#/definitions/" + ref.ReferredType }}
+	def := jenny.GenerateSchema(languages.Context{Schemas: processed}, sch)
+	raw, err := json.Marshal(def)
+	if err != nil {
+		return nil, "", err
+	}
+	rv, err = newRefValidator("jsonschema", string(raw), real.EntryPoint)
+	return rv, string(raw), err
+}
+
 // ---- pinned schemas: every keyword the generator reads, with documents ------------------------
 
 type frontPinned struct {
@@ -517,6 +555,11 @@ var c01FrontPinned = []frontPinned{
 	// witness of C01_jsonschema_parser_sound_counterexample (lean/Cog/Props/C01.lean: `cxDefs`, `cxDoc`)
 	{"pinint64", `{"$schema": "http://json-schema.org/draft-07/schema#", "$ref": "#/definitions/R", "definitions": {"R": {"type": "integer"}}}`,
 		[]string{`9223372036854775808`, `9223372036854775807`, `-9223372036854775808`, `1.0`, `1.5`}},
+	// witness of C12_jsonschema_source_validates_emitted_counterexample (Props/C12.lean): `null` at a required nullable member is
+	// valid against the source schema and rejected by the emitted one (known finding C12/nullable/not-represented-null-rejected)
+	{"pinnullreq", `{"$schema": "http://json-schema.org/draft-07/schema#", "$ref": "#/definitions/R", "definitions": {
+	  "R": {"type": "object", "additionalProperties": false, "required": ["x"], "properties": {"x": {"type": ["string", "null"]}}}}}`,
+		[]string{`{"x": null}`, `{"x": "a"}`, `{}`, `{"x": 1}`}},
 	{"pinflat", `{"$schema": "http://json-schema.org/draft-07/schema#", "$ref": "#/definitions/R", "definitions": {
 	  "R": {"type": "object", "additionalProperties": false, "required": ["code", "n"], "properties": {
 	    "code": {"type": "string", "minLength": 2, "maxLength": 4, "default": "ab"},
@@ -598,6 +641,22 @@ func c01FrontEmit(out *bufio.Writer, c frontCase, hist map[string]int) {
 	for _, d := range c.Docs {
 		// instances of the C08 composition: every sub-document at a flat object definition
 		fmt.Fprintf(out, "jsfc08 %s %s.fe %s\t-\tok\n", c.ID, c.ID, d.Doc.sexp())
+	}
+	// source schema → real front-end → real jsonschema jenny: does the EMITTED schema accept the document? (lean/Cog/Drv/FrontEmitDrv.lean)
+	erv, etext, eerr := c01FrontRealEmitted(real)
+	if eerr == nil {
+		if ejv, err := parseJV([]byte(etext)); err == nil {
+			fmt.Fprintf(out, "-\temitted %s %s\tok\n", c.ID, ejv.json())
+		}
+	} else {
+		fmt.Fprintf(out, "-\temitted-err %s %s\tok\n", c.ID, labOneLine(shortErr(eerr)))
+	}
+	for _, d := range c.Docs {
+		remit := "n/a"
+		if eerr == nil {
+			remit = fmt.Sprint(erv.validate(d.Doc) == nil)
+		}
+		fmt.Fprintf(out, "jsfc12 %s %s.fe %s\tsrc=%v remit=%s\tok\n", c.ID, c.ID, d.Doc.sexp(), compiled.Validate(d.Doc.toAny(true)) == nil, remit)
 	}
 	for _, d := range c.Docs {
 		valid := compiled.Validate(d.Doc.toAny(true)) == nil
